@@ -4,6 +4,7 @@ import (
 	"context"
 	"fmt"
 	"log/slog"
+	"os"
 	"time"
 
 	"github.com/prometheus/client_golang/prometheus"
@@ -93,23 +94,23 @@ func builderFor(mode string) (api.Builder, error) {
 func (rs *RunSpec) BuildTrigger() (*api.Trigger, options.RunOptions, error) {
 	opts := rs.Opts
 	if rs.Mode == "file" {
-		plan, err := file.ParseConfigFile([]byte(rs.FileYAML), vtime.Now())
+		// the real builder of `f1 run file <config>`: reads the document from a file, parses it
+		// and fills the trigger's options, which run_cmd.go copies into the run options
+		b := file.Rate(ui.NewDiscardOutput())
+		if err := b.Flags.Parse([]string{cfgPath(rs.FileYAML)}); err != nil {
+			return nil, opts, err
+		}
+		tr, err := b.New(b.Flags)
 		if err != nil {
 			return nil, opts, err
 		}
-		// what file.Rate's constructor assembles from the plan
-		tr := &api.Trigger{
-			Trigger:     plan.VerifStagesWorker(),
-			Description: fmt.Sprintf("%d different stages", len(plan.Stages)),
-			Duration:    plan.VerifTotalDuration(),
-		}
-		opts.Scenario = plan.Scenario
-		opts.MaxDuration = plan.MaxDuration
-		opts.Concurrency = plan.Concurrency
-		opts.MaxIterations = plan.MaxIterations
-		opts.MaxFailures = plan.VerifMaxFailures()
-		opts.MaxFailuresRate = plan.VerifMaxFailuresRate()
-		opts.IgnoreDropped = plan.IgnoreDropped
+		opts.Scenario = tr.Options.Scenario
+		opts.MaxDuration = tr.Options.MaxDuration
+		opts.Concurrency = tr.Options.Concurrency
+		opts.MaxIterations = tr.Options.MaxIterations
+		opts.MaxFailures = tr.Options.MaxFailures
+		opts.MaxFailuresRate = tr.Options.MaxFailuresRate
+		opts.IgnoreDropped = tr.Options.IgnoreDropped
 		return tr, opts, nil
 	}
 	b, err := builderFor(rs.Mode)
@@ -259,4 +260,37 @@ func RunOnce(rs *RunSpec, cancelAt, observe time.Duration, horizon time.Duration
 		}
 	}, horizon, 0)
 	return res
+}
+
+// cfgPath returns a path the real config-file reader can open for doc. The
+// document is written once per process to an unlinked temporary file that is
+// kept open; /proc/self/fd/<n> re-opens it from the start, and nothing is left
+// behind on disk.
+var (
+	cfgPaths = map[string]string{}
+	cfgKeep  []*os.File
+)
+
+func cfgPath(doc string) string {
+	if p, ok := cfgPaths[doc]; ok {
+		return p
+	}
+	if len(cfgKeep) >= 200 {
+		for _, f := range cfgKeep {
+			f.Close()
+		}
+		cfgKeep, cfgPaths = nil, map[string]string{}
+	}
+	f, err := os.CreateTemp("", "f1cfg")
+	if err != nil {
+		vrt.Infra("config file: " + err.Error())
+	}
+	if _, err := f.WriteString(doc); err != nil {
+		vrt.Infra("config file: " + err.Error())
+	}
+	os.Remove(f.Name())
+	cfgKeep = append(cfgKeep, f)
+	p := fmt.Sprintf("/proc/self/fd/%d", f.Fd())
+	cfgPaths[doc] = p
+	return p
 }
